@@ -82,6 +82,9 @@ class AbstractDenseTimeOnlineInterpreter(AbstractOnlineInterpreter, DenseTimeInt
 class DenseTimeOnlineUpdateVisitor(AbstractOnlineUpdateVisitor):
     def visitVariable(self, node, online_operator_dict, var_object_dict):
         vals = var_object_dict[node.var]
+        if not isinstance(vals, (list, tuple)):
+            # no samples were supplied for this input yet (the entry still holds the default value of its declaration)
+            vals = []
         if node.field:  #TODO Tom did not understand this line.
             sample_return = []
             for val in vals:
